@@ -198,8 +198,9 @@ Inductive group_sim (phi : list cluster) (cn : list cnode) : group -> cgroup -> 
 | GS_row k cls c rt nd :
     nth_error phi k = Some c -> nth_error cn (fst c) = Some nd -> class_ok cls rt (cn_body nd) ->
     group_sim phi cn (GRow k cls) (CGRow (fst c) (match snd c with Some j => [j] | None => [] end) rt)
-| GS_noop ps : group_sim phi cn (GNoOp ps None) (CGNoOp ps None)
+| GS_noop ps : Forall (fun p => c_cname (snd p) = []) ps -> group_sim phi cn (GNoOp ps None) (CGNoOp ps None)
 | GS_noop_router ps k k1 :
+    Forall (fun p : nat * econd => c_cname (snd p) = []) ps ->
     nth_error phi k = Some (k1, None) -> group_sim phi cn (GNoOp ps (Some k)) (CGNoOp ps (Some k1))
 | GS_block ms : group_sim phi cn (GBlock ms) (CGBlock ms).
 
